@@ -777,6 +777,18 @@ func init() {
 			if op == OpSub {
 				ex.oblige(st, mkCmp(OpUle, y, x), "engine:big-negative", "big.Int subtraction below zero is outside the modelled domain")
 			}
+			if op == OpURem {
+				if yv, ok := y.ConstBig(); ok && yv.Sign() > 0 && yv.BitLen() < bigW-1 {
+					// remainder by a constant: when the dividend is known to be below twice the modulus (one cheap
+					// comparison query) the remainder is a conditional subtraction, which the solver can handle;
+					// a 2176-bit bvurem is out of its reach
+					two := mkBigBV(bigW, new(big.Int).Lsh(yv, 1))
+					if r, _ := ex.check(st, mkCmp(OpUle, two, x), nil); r == Unsat {
+						ex.setBig(st, a[0].(*Ptr), mkIte(mkCmp(OpUlt, x, y), x, mkBin(OpSub, x, y)))
+						return a[0]
+					}
+				}
+			}
 			ex.setBig(st, a[0].(*Ptr), mkBin(op, x, y))
 			return a[0]
 		}
